@@ -1,4 +1,3 @@
-CONSTANTS Part = "all" MaxMult = 3 Rich = TRUE
+CONSTANTS Part = "all" MaxMult = 3 Rich = TRUE Check = FALSE
 SPECIFICATION Spec
-INVARIANT Emit
 CHECK_DEADLOCK FALSE
